@@ -279,7 +279,45 @@ def replay_get_regex(ns, ob, model):
     return out["observed"] != out["expected"], out
 
 
+def replay_target_frame(ns, ob, model):
+    """frame clause of target_sequence: the wrapped plasmid is the same before and after.  The counter-model fixes
+    the rotation class (cut position a multiple of the length); every rotation of a generic plasmid is tried"""
+    import random
+    from Bio.Seq import Seq
+    from Bio.SeqFeature import SeqFeature, FeatureLocation
+    from Bio.Restriction import BsaI
+    from bounded import gen, common as bc
+    if ob.meta.get("clause") != "wrapped-record-left-untouched":
+        return None, "no replay harness for this clause of target_sequence"
+    core = ns["moclo.core"]
+    CircularRecord = ns["moclo.record"].CircularRecord
+    is_vec = "Vector" in ob.meta.get("function", "")
+    cls = type("G", (core.EntryVector if is_vec else core.Entry,), dict(cutter=BsaI))
+    rng = random.Random(11)
+    inst, _ = gen.instance(cls.structure(), rng, run=9)
+    n = len(inst)
+    for k in range(n):
+        text = inst[k:] + inst[:k]
+        feats = [SeqFeature(FeatureLocation(1, 4, 1), type="misc_feature", qualifiers={"label": ["x"]})]
+        rec = CircularRecord(Seq(text), id="p", features=feats)
+        before = bc.observe(rec)
+        ent = cls(rec)
+        try:
+            ent.target_sequence()
+            ent.target_sequence()
+        except Exception as e:
+            continue
+        after = bc.observe(rec)
+        if before != after:
+            return True, dict(call="%s(CircularRecord(Seq(%r), features=[misc_feature 1..4])).target_sequence() twice" % (
+                "EntryVector[BsaI]" if is_vec else "Entry[BsaI]", text), expected=before, observed=after,
+                note="found in the neighbourhood of the counter-model (every rotation of one plasmid)", model=model)
+    return False, dict(note="no rotation of the generic plasmid is modified by target_sequence()", model=model)
+
+
 REPLAY = {
+    "AbstractModule.target_sequence": replay_target_frame,
+    "AbstractVector.target_sequence": replay_target_frame,
     "CircularRecord.__contains__": replay_contains,
     "DNARegex.search": replay_search,
     "AssemblyManager.__init__": replay_assembly_init,
